@@ -513,20 +513,31 @@ def check_bool_number(ctx):
             ctx.ob("bool.kinds", v, "%s value" % kind, ok, why)
             continue
         # strings: the two token tables, case-insensitively; anything else is rejected
+        def tbl_attr(e, node=None):
+            """TRUE_VALUES / FALSE_VALUES named by the expression: self.TRUE_VALUES, or a local that only holds it"""
+            if isinstance(e, ast.Attribute):
+                return e.attr
+            if isinstance(e, ast.Name):
+                srcs = value_sources(v, e, node)
+                attrs = {pl.attr if k == "expr" and isinstance(pl, ast.Attribute) else None for k, pl in srcs}
+                if len(attrs) == 1 and None not in attrs:
+                    return attrs.pop()
+            return None
+
         def table_decider(outcomes):
             base = writer_decider(an, v, vp, "str")
 
             def decide(e, node):
                 if isinstance(e, ast.Compare) and len(e.ops) == 1 and isinstance(e.ops[0], (ast.In, ast.NotIn)) and \
-                        isinstance(e.comparators[0], ast.Attribute) and e.comparators[0].attr in outcomes:
-                    r = outcomes[e.comparators[0].attr]
+                        tbl_attr(e.comparators[0], node) in outcomes:
+                    r = outcomes[tbl_attr(e.comparators[0], node)]
                     return r if isinstance(e.ops[0], ast.In) else (not r)
                 return base(e, node)
             return decide
         for tbl, const, outcomes in (("TRUE_VALUES", True, {"TRUE_VALUES": True}), ("FALSE_VALUES", False, {"TRUE_VALUES": False, "FALSE_VALUES": True})):
             spt = Spec(an, v, table_decider(outcomes))
             tests = [t for t in g.nodes if t.kind == "test" and t in spt.normal and isinstance(t.ast, ast.Compare) and isinstance(t.ast.ops[0], (ast.In, ast.NotIn))
-                     and isinstance(t.ast.comparators[0], ast.Attribute) and t.ast.comparators[0].attr == tbl]
+                     and tbl_attr(t.ast.comparators[0], t) == tbl]
             lowered = bool(tests) and all(
                 all(k == "expr" and isinstance(p, ast.Call) and isinstance(p.func, ast.Attribute) and p.func.attr in ("lower", "casefold")
                     and is_value(spt, p.func.value, spt.where.get(id(p))) for k, p in spt.sources(t.ast.left, t)) for t in tests)
@@ -543,7 +554,7 @@ def check_bool_number(ctx):
                        tbl, const, sorted(map(str, consts)), "" if lowered else "; the comparison is case-sensitive"))
         # a string outside both tables is rejected
         both_false = Spec(an, v, (lambda base: lambda e, node: False if (isinstance(e, ast.Compare) and isinstance(e.ops[0], ast.In)
-                                  and isinstance(e.comparators[0], ast.Attribute) and e.comparators[0].attr in ("TRUE_VALUES", "FALSE_VALUES"))
+                                  and tbl_attr(e.comparators[0], node) in ("TRUE_VALUES", "FALSE_VALUES"))
                                   else base(e, node))(writer_decider(an, v, vp, "str")))
         ok = not both_false.normal_returns() and not both_false.falls_off() and bool(both_false.raises())
         ctx.ob("bool.kinds", v, "str outside the token tables", ok, "strings that are no boolean token are rejected" if ok else
